@@ -344,10 +344,13 @@ pub fn run_c32(batch: &str, tape: &mut Tape, rep: &mut Report) {
                     Rq::Deploy(slot) => {
                         // pipeline names are unique per deploy (names are only unique within a group in varpulis; two groups
                         // sharing a pipeline name would add a second, unrelated bookkeeping ambiguity)
-                        let pipes = vec![(format!("p{}a_{}", slot, i), None, 1usize), (format!("p{}b_{}", slot, i), None, 1)];
+                        // every other deploy runs its first pipeline as two replicas (placements "name#0", "name#1")
+                        let reps = 1 + (i % 2);
+                        let pipes = vec![(format!("p{}a_{}", slot, i), None, reps), (format!("p{}b_{}", slot, i), None, 1)];
                         let r = api(&routes, "POST", "/api/v1/cluster/pipeline-groups", Some(spec(&format!("g{}", slot), &pipes))).await;
                         if r.status / 100 == 2 {
-                            if let Some(id) = r.json["id"].as_str() { groups.lock().unwrap().insert(*slot, (id.to_string(), format!("p{}a_{}", slot, i))); }
+                            let migratable = if reps > 1 { format!("p{}a_{}#0", slot, i) } else { format!("p{}a_{}", slot, i) };
+                            if let Some(id) = r.json["id"].as_str() { groups.lock().unwrap().insert(*slot, (id.to_string(), migratable)); }
                         }
                         r.status
                     }
